@@ -219,11 +219,42 @@ def gen_rollover(rng, nsteps, nsig=2, every=1, splits=()):
                     s = format((acc * 7 + i) % (1 << w), f"0{w}b")
                     ops.append(f"v{i}:{hexs(('b' + s).encode())}")
         r = rng.random()
+        near = (acc % 65535) in (0, 1, 65534)
+        if near:
+            # repeated / backwards timestamps exactly at (and next to) the block roll-over
+            r = rng.choice([0.0, 0.0007, 0.5])
         if r < 0.0005:
             ops.append(f"t{t}")             # repeated timestamp
+            toggle ^= 1
+            ops.append(f"v0:{hexs(SYMS[toggle].encode() if types[0] == 'b1' else ('b' + format((acc * 5 + 1) % (1 << int(types[0][1:])), '0' + types[0][1:] + 'b')).encode())}")
         elif r < 0.001:
             ops.append(f"t{max(0, t - 2)}")  # backwards (skipped) ...
             ops.append(f"v0:{hexs(b'1' if types[0] == 'b1' else ('b' + '1' * int(types[0][1:])).encode())}")
             ops.append(f"t{t}")             # ... and back to the current maximum
+    h.tmax = t
+    return h.line()
+
+
+def gen_gaps(rng, types=None):
+    """signals that stay unchanged for long stretches inside one block: deltas of 2^12..2^16 time steps
+    (the LEB128 delta / meta packing must not truncate them)"""
+    types = types or [rng.choice(["b1", "b2", "b5", "b8", "b33", "g2", "g9", "g16", "r", "s"]) for _ in range(rng.choice([1, 2, 3]))]
+    h = Hist(rng, types)
+    gaps = [rng.choice([4095, 4096, 8191, 8192, 16383, 16384, 16385, 20000, 32767, 32768, 40000, 65533, 65534]) for _ in range(3)]
+    change_at = {0}
+    pos = 0
+    for g in gaps:
+        pos += g
+        change_at.add(pos)
+        if rng.random() < 0.5:
+            change_at.add(pos + 1)
+    total = max(change_at) + 2
+    t = 0
+    for k in range(total):
+        t += 1
+        h.ops.append(f"t{t}")
+        if k in change_at:
+            for i in range(len(types)):
+                h.value(i)
     h.tmax = t
     return h.line()
